@@ -15,8 +15,8 @@ def liveFor (t : T) : Option Queuer → Prop
 @[simp] theorem liveFor_some (t : T) (q : Queuer) : liveFor t (some q) = (q.t = t ∧ q.building = true ∧ q.ph ≠ .done) := rfl
 
 structure Inv3 (s : St) : Prop where
-  activeHasQueuer : s.stopped = false → ∀ t, s.st t = .active → liveFor t (s.qs (s.bq t))
-  pendingHasToken : s.stopped = false → ∀ t, s.st t = .pending →
+  activeHasQueuer : s.ext = false → ∀ t, s.st t = .active → liveFor t (s.qs (s.bq t))
+  pendingHasToken : s.ext = false → ∀ t, s.st t = .pending →
       s.chan (s.tm t) = some t ∨ s.ws (s.wk t) = some ⟨t, .taken⟩
   buildingHasWorker : ∀ t, s.st t = .building → s.ws (s.wk t) = some ⟨t, .building⟩
   chanIdx : ∀ m t, s.chan m = some t → s.tm t = m
@@ -251,16 +251,15 @@ def units (s : St) : Nat :=
     sumTo (fun i => ind (s.ws i)) s.nextW
 
 /-- until `Stop`, `numPending` is exactly the number of live tasks -/
-def Acct (s : St) : Prop := s.stopped = false → s.numPending = (units s : Int)
+def Acct (s : St) : Prop := s.ext = false → s.numPending = (units s : Int)
 
 theorem acct_init : Acct St.init := by
   intro _; simp [St.init, units, b01, sumTo]
 
-theorem taskDone_acct {s : St} (h : s.stopped = false → s.numPending - 1 = (units s : Int)) : Acct (taskDone s) := by
+theorem taskDone_acct {s : St} (h : s.ext = false → s.numPending - 1 = (units s : Int)) : Acct (taskDone s) := by
   intro hs
-  simp only [taskDone, Bool.or_eq_false_iff, decide_eq_false_iff_not] at hs
   simp only [taskDone, units] at *
-  exact h hs.1
+  exact h hs
 
 theorem spawn_acct {s : St} (h1 : Inv c s) (h : Acct s) (t : T) (b f : Bool) (ns : TS) : Acct (spawn c s t b f ns) := by
   intro hs
